@@ -53,7 +53,9 @@ func Env(r *fw.Rand) envs.Environment {
 // Context builds the standard evaluation context whose paths are listed in ctxPaths.
 // Values vary with r; no two keys of one object differ only in case.
 func Context(r *fw.Rand) *types.XObject {
-	str := func() types.XValue { return types.NewXText(fw.Pick(r, []string{"", "a", "Hello World", "12", "1.5", "2020-01-01", "x y z", "é", "red"})) }
+	str := func() types.XValue {
+		return types.NewXText(fw.Pick(r, []string{"", "a", "Hello World", "12", "1.5", "2020-01-01", "x y z", "é", "red"}))
+	}
 	num := func() types.XValue {
 		return dec(fw.Pick(r, []string{"0", "1", "2", "3", "-1", "0.5", "10", "23", "1.50", "100", "1234567.891"}))
 	}
